@@ -66,6 +66,9 @@ impl SortingInference<'_> {
             .collect::<HashMap<_, _>>();
 
         // a map of column -> alias
+        // A column can have several aliases. Pick one that is part of the final
+        // select if there is one, then the one declared first, so that the
+        // choice does not depend on the iteration order of `column_decls`.
         let column_aliases = self
             .ctx
             .anchor
@@ -82,6 +85,7 @@ impl SortingInference<'_> {
                     None
                 }
             })
+            .sorted_by_key(|(_, alias)| (final_select.contains(alias), std::cmp::Reverse(*alias)))
             .collect::<HashMap<_, _>>();
         log::debug!(".. column aliases: {column_aliases:?}");
 
